@@ -9,4 +9,4 @@ Require Import Fsic.Base.PyBase Fsic.Parser.PyStr Fsic.Parser.Lex Fsic.Parser.Fo
 Extraction Language OCaml.
 Extraction "Extract/Parser/parser_model.ml"
   parse_model_M parse_model_nocheck parse_equation_M split_M toks py_format py_int stmt_ok
-  type_name type_value string_of_Z n_emitted template.
+  type_name type_value string_of_Z n_emitted template model_lines strip_comments.
